@@ -309,6 +309,17 @@ pub fn pool(api: &MockApi, n: usize) -> Vec<Addr> {
 
 pub const INVALID_ADDR: &str = "NotAnAddress";
 
+/// An address literal that `addr_validate` refuses: plain garbage, or a pool address written in upper case (bech32
+/// decodes it, but it is not the normalised spelling — code that "helpfully" lower-cases first would accept it and
+/// meet the lower-case spelling of the same account).
+pub fn invalid_addr(rng: &mut Rng, pool: &[cosmwasm_std::Addr]) -> String {
+    if !pool.is_empty() && rng.chance(1, 3) {
+        rng.pick(pool).as_str().to_uppercase()
+    } else {
+        INVALID_ADDR.to_string()
+    }
+}
+
 /// One scenario = one contract (or group of contracts) driven by op lines.
 pub trait Scenario {
     /// Start a new trace; returns the `scenario …` header line.
